@@ -42,18 +42,31 @@ def _orders(inp):
 
 
 def _explicit_ops(cr, mode_seed):
-    """the crystal's own operations supplied by the caller: the same group, identity first, otherwise reordered
-    (even seed: shuffled; odd seed: rotation-major "for each point operation, for each lattice point")"""
+    """the crystal's own operations supplied by the caller, the same group in another order (seed % 3):
+    0: identity first, the rest shuffled; 1: identity first, rotation-major ("for each point operation, for each
+    lattice point"); 2: a NON-identity operation first, the identity second (so that the zero translation is still the
+    first of the pure translations, which is all the code relies on), the rest shuffled — this last form is outside
+    the wording of C11 ("any order that keeps the identity first") but inside C02/C14 (operations of the group as
+    supplied), and the unchanged library handles it"""
     rots, trans = ph.spg_ops(cr)
     rs = np.random.default_rng(int(mode_seed))
-    idx = list(range(1, len(rots)))
-    if int(mode_seed) % 2 == 0:
-        idx = [int(i) for i in rs.permutation(idx)]
-    else:
-        idx.sort(key=lambda i: (rots[i].reshape(-1).tolist(), np.round(trans[i], 6).tolist()))
-    idx = [0] + idx
     ok = np.array_equal(rots[0], np.eye(3, dtype=int)) and np.allclose(trans[0], 0)
-    return {"rotations": rots[idx], "translations": trans[idx]} if ok else None
+    if not ok:
+        return None
+    idx = list(range(1, len(rots)))
+    mode = int(mode_seed) % 3
+    if mode == 1:
+        idx.sort(key=lambda i: (rots[i].reshape(-1).tolist(), np.round(trans[i], 6).tolist()))
+        idx = [0] + idx
+    else:
+        idx = [int(i) for i in rs.permutation(idx)]
+        nonid = [i for i in idx if not np.array_equal(rots[i], np.eye(3, dtype=int))]
+        if mode == 2 and nonid:
+            first = nonid[0]
+            idx = [first, 0] + [i for i in idx if i != first]
+        else:
+            idx = [0] + idx
+    return {"rotations": rots[idx], "translations": trans[idx]}
 
 
 # ------------------------------------------------------------------ C01 / C02 / C03 / C08 / C09 basis-level
@@ -558,6 +571,12 @@ def check_description(inp) -> list:
         cr2 = Crystal(cr.name, cr.lattice, pos, cr.numbers, cr.n_lp_expected, {})
         B = _projector(mk(cr2))
         compare(B, f"{kind} {sh.tolist()}")
+    elif kind == "wrap_each":
+        # every atom written with its OWN integer offset (coordinates anywhere in [-2, 3)): the same crystal
+        off = np.random.default_rng(inp.get("seed", 0) + 17).integers(-2, 3, size=cr.positions.shape).astype(float)
+        cr2 = Crystal(cr.name, cr.lattice, cr.positions + off, cr.numbers, cr.n_lp_expected, {})
+        B = _projector(mk(cr2))
+        compare(B, "per-atom integer offsets of the fractional coordinates")
     elif kind == "unimodular":
         U = np.array(inp["U"])
         L2 = U @ cr.lattice
@@ -582,9 +601,9 @@ def check_description(inp) -> list:
 
 def gen_description_inputs(rng, n, max_N=(6, 4, 3)):
     for k in range(n):
-        order = (2, 3, 2, 3, 4)[(k + k // 5) % 5]      # every kind meets every order
+        order = (2, 3, 2, 3, 4)[(k + k // 6) % 5]      # every kind meets every order
         cr = crystal(rng, max_N=max_N[order - 2])
-        kind = ["permute", "shift", "wrap", "unimodular", "rotate"][k % 5]
+        kind = ["permute", "shift", "wrap", "unimodular", "rotate", "wrap_each"][k % 6]
         inp = {"crystal": cr, "orders": [order], "kind": kind, "seed": rng.randrange(10 ** 6)}
         if rng.random() < 0.5:
             dd = ph.min_image_distances(cr)
@@ -1111,7 +1130,13 @@ def check_solver_reuse(inp) -> list:
     sol = cls(arg)
     for step, ds in enumerate(inp["sequence"]):
         d, f = datasets[ds]
-        sol.solve(d.copy(), f.copy())
+        # the solver classes used DIRECTLY take a snapshot batch size (the API forwards it only to the multi-order
+        # solvers): the re-used object gets one, the fresh reference the default
+        bsz = (inp.get("batch_sizes") or [None] * (step + 1))[step]
+        if bsz is None:
+            sol.solve(d.copy(), f.copy())
+        else:
+            sol.solve(d.copy(), f.copy(), batch_size=int(bsz))
         fresh = cls(arg).solve(d.copy(), f.copy())
         for layout in inp["reads"][step]:
             got = read(sol, layout)
@@ -1141,6 +1166,7 @@ def gen_solver_reuse_inputs(rng, n):
         L = rng.randint(2, 3)
         yield {"crystal": cr, "orders": od, "n_snap": 60, "data_seed": rng.randrange(10 ** 6),
                "sequence": [rng.randint(0, 2) for _ in range(L)],
+               "batch_sizes": [rng.choice([None, 1, 2, 3, 4, 5, 7, 13, 59, 61]) for _ in range(L)],
                "reads": [rng.choice([["full"], ["compact"], ["full", "compact"], ["compact", "full"]]) for _ in range(L)]}
 
 
